@@ -188,6 +188,34 @@ func tsRoundtrip(s uint64, ns uint32) {
 	w.Case("csptp.ts_roundtrip", "nt", lib.V(lib.U(s), lib.U(uint64(ns))), lib.V(lib.Bool(ok), lib.U(bs), lib.U(uint64(back.Nanoseconds))))
 }
 
+// wire -> time -> wire for ANY 32-bit nanoseconds field (non-canonical ones carry into the seconds;
+// at the last 48-bit seconds the carried instant cannot be written any more and the code panics)
+func tsReencode(s uint64, ns uint32) {
+	t := csptp.TimeFromTimestamp(mkTs(s, ns))
+	ok := true
+	var back csptp.Timestamp
+	func() {
+		defer func() {
+			if recover() != nil {
+				ok = false
+			}
+		}()
+		back = csptp.TimestampFromTime(t)
+	}()
+	var bs uint64
+	for _, b := range back.Seconds {
+		bs = bs<<8 | uint64(b)
+	}
+	tags := "nt"
+	if ns >= 1000000000 {
+		tags += ",noncanonical-ns"
+	}
+	if !ok {
+		tags += ",panic"
+	}
+	w.Case("csptp.ts_reencode", tags, lib.V(lib.U(s), lib.U(uint64(ns))), lib.V(lib.Bool(ok), lib.U(bs), lib.U(uint64(back.Nanoseconds))))
+}
+
 func interval(i int64) {
 	tags := ""
 	if i < 0 && i&0xffff != 0 {
@@ -323,6 +351,14 @@ func main() {
 				timeOfTs(lib.ParseU(f[0]), uint32(lib.ParseU(f[1])))
 			case "csptp.ts_roundtrip":
 				tsRoundtrip(lib.ParseU(f[0]), uint32(lib.ParseU(f[1])))
+			case "csptp.ts_reencode":
+				tsReencode(lib.ParseU(f[0]), uint32(lib.ParseU(f[1])))
+			case "units.callsites":
+				callsites()
+			case "csptp.client":
+				clientCaseRun(clientCase{theta: lib.ParseI(f[0]), f1: lib.ParseI(f[1]), f0a: lib.ParseI(f[2]), f0b: lib.ParseI(f[3]),
+					utc: int16(lib.ParseI(f[4])), valid: lib.ParseI(f[5]) == 1, extra0: uint16(lib.ParseI(f[6])), extra1: uint16(lib.ParseI(f[7])),
+					spacingUs: lib.ParseI(f[8]), fuFirst: lib.ParseI(f[9]) == 1, stateDS: lib.ParseI(f[10]) == 1})
 			case "csptp.interval":
 				interval(lib.ParseI(f[0]))
 			case "csptp.formulas":
@@ -337,8 +373,10 @@ func main() {
 	}
 	r := lib.NewRng(a.Seed)
 	n := 2500
+	clientEvery := 4
 	if a.Tier == "thorough" {
 		n = 60000
+		clientEvery = 12
 	}
 	for _, x := range []int64{-1000000000, -1, -999999999, -2000000000, math.MinInt64, math.MaxInt64, 0, 1000000000} {
 		timeval(x)
@@ -351,6 +389,14 @@ func main() {
 		drift(p[0], p[1])
 	}
 	driftAdd(500000, 3*3600e9, 3*3600e9)
+	callsites()
+	for _, p := range [][2]uint64{{1<<48 - 1, 1000000000}, {1<<48 - 1, 999999999}, {1<<48 - 1, 1<<32 - 1}, {1<<48 - 5, 1<<32 - 1}, {1<<48 - 4, 4000000000},
+		{1<<48 - 4, 3999999999}, {0, 1000000000}, {0, 1<<32 - 1}, {1717243200, 1000000000}, {1717243200, 1999999999}, {1717243200, 4294967295}} {
+		tsReencode(p[0], uint32(p[1]))
+	}
+	clientCaseRun(clientCase{theta: 37, f1: 1000<<16 | 0x8000, f0a: 3<<16 | 1, f0b: 4<<16 | 0xffff, utc: 37, valid: true})
+	clientCaseRun(clientCase{theta: -2000000000, f1: -(5 << 16) + 7, f0a: 0, f0b: -(1000000 << 16) + 0x4000, utc: 37, valid: false, spacingUs: 1500})
+	clientCaseRun(clientCase{theta: 1 << 58, f1: 1 << 61, f0a: -(1 << 61), f0b: 1<<61 + 12345, utc: -32768, valid: true, fuFirst: true, spacingUs: 300, stateDS: true})
 	recoverCase(ts2024, ts2024+1500000, 37, 500000, 3<<16, 4<<16)
 	recoverCase(ts2024, ts2024+1500000, -2000000000, 80000000, 0, 0)
 	recoverDelays(ts2024, ts2024+1500000, 37, 400000, 600000, 3, 4, 37000000000)
@@ -449,11 +495,31 @@ func main() {
 				ns = uint32(r.Range(0, 999999999))
 			}
 			tsRoundtrip(s, ns)
+			{
+				rs := s
+				if r.Intn(3) == 0 {
+					rs = 1<<48 - 1 - uint64(r.Intn(6))
+				}
+				var rns uint32
+				switch r.Intn(4) {
+				case 0:
+					rns = lib.Pick(r, uint32(1000000000), 1000000001, 1999999999, 2000000000, 1<<32-1, 4000000000, 3999999999)
+				case 1:
+					rns = ns
+				default:
+					rns = uint32(r.Range(1000000000, 1<<32-1))
+				}
+				tsReencode(rs, rns)
+			}
 			tsOfTime(int64(s), int64(ns))
 			if i%4 == 0 {
 				timeOfTs(s, uint32(r.U64())) // any 32-bit nanoseconds field the wire allows
 				tsOfTime(lib.Pick(r, int64(-1), -1000, 1<<48, 1<<48+5, 1<<50), int64(ns))
 			}
+		}
+		// the real CSPTP client against the scripted responder
+		if i%clientEvery == 0 {
+			clientCaseRun(genClientCase(r))
 		}
 		// formulas
 		recoverCase(genTime(r), genTime(r), small(r)/4, small(r)/4, small(r)/8, small(r)/8)
